@@ -106,5 +106,11 @@ CLAIMS["C11"] = {
     "note": "Triage of D17: times of DAY out of order because civil dusk falls after local midnight (55-60 degrees, June) is not a violation of 'physically ordered' (the instants are ordered, the consequence holds on every such day): reclassified as an ok-level tag. Open: clock-change-between-events (zone offset changes between two events of one day; one point-day in 146.8 M where the consequence fails). Above 60.56 degrees the sunrise crate returns the epoch for events that do not occur (outside the property's latitude range).",
     "technique": "Lean 4 theorems on the provable part + grid search over coordinates and dates for the third-party floating-point part",
 }
+CLAIMS["C12"] = {
+    "text": "Lean theorems about a model of the binding that is parametric in the core operations: the constructor builds exactly the context the property describes for every combination of timezone / country / coords / auto_* flags (decision table, error classes and their order), state / is_* / next_change / intervals / normalize / str return the core's result for that context with 10000-01-01 mapped to None and the zone of the context or else of the input, validate iff the constructor parses. Tie to the code: the extension module is rebuilt from /repo and driven in CPython on the same operation lines as the Rust core; results, zones, None mapping and exception classes are compared per line; PanicException is a violation.",
+    "design_ref": "§5 C12",
+    "note": "PyO3's conversions are exercised, not modelled. Open findings: aware datetimes with datetime.timezone tzinfo refused (TypeError), aware times inside a DST gap refused, repr() uses Rust escaping (N4), and three tz-database discrepancies between CPython and chrono-tz (from 2100, before 1970, a zone missing). Fixed on the way: D1 (PanicException from the constructor and validate), D14 (str did not parse back). Observations recorded in notes/C12.md (auto_timezone=False drops coordinates, no __eq__/__hash__).",
+    "technique": "Lean 4 theorems on a parametric binding model + three-way correspondence CPython extension / Rust core / model",
+}
 ALL = [f"C{i:02d}" for i in range(1, 21)]
 NOT_APPLICABLE = {p: PENDING for p in ALL if p not in CLAIMS}
